@@ -672,7 +672,12 @@ def _cvec_binop(op):
 
     def h(ip, a, b):
         if isinstance(a, CVec) or isinstance(b, CVec):
-            return cvec_elementwise(ip, lambda x, y: ip.binop(op, x, y), a, b)
+            # array semantics: an entry divided by zero is some unspecified value, not a ZeroDivisionError (jnp yields inf / nan there)
+            ip.array_division = getattr(ip, "array_division", 0) + 1
+            try:
+                return cvec_elementwise(ip, lambda x, y: ip.binop(op, x, y), a, b)
+            finally:
+                ip.array_division -= 1
         if prev:
             return prev(ip, a, b)
         raise Unsupported(f"binop {op}")
@@ -700,6 +705,8 @@ MODELS["numpy.where"] = _where_vec
 MODELS["jax.numpy.log1p"] = MODELS["numpy.log1p"] = lambda ip, x: MODELS["jax.numpy.log"](ip, ip.binop("Add", 1, x))  # log1p(x) = log(1 + x) over the reals
 _prev_log = MODELS["jax.numpy.log"]
 MODELS["jax.numpy.log"] = lambda ip, x: CVec([_prev_log(ip, e) for e in x]) if isinstance(x, CVec) else _prev_log(ip, x)
+_prev_sqrt = MODELS["jax.numpy.sqrt"]
+MODELS["jax.numpy.sqrt"] = lambda ip, x: CVec([_prev_sqrt(ip, e) for e in x]) if isinstance(x, CVec) else _prev_sqrt(ip, x)
 
 
 def _jnp_sum(ip, x, axis=None, **kw):
